@@ -524,10 +524,13 @@ class Ctx(object):
                         fv[lab + '.im'] = float(a[idx].imag)
                     else:
                         fv[lab] = float(a[idx].real)
-            scale = max(1.0, float(np.max(np.abs(b))) if b.size else 1.0)
+            fin = np.abs(b[np.isfinite(b)]) if b.size else np.array([])
+            scale = max(1.0, float(np.max(fin)) if fin.size else 1.0)
             tol = self.opts.get('float_tol', 1e-7)
             with np.errstate(invalid='ignore'):
                 bad = ~(np.abs(a - b) <= tol * scale)
+                # a non-finite ORACLE value (overflow in the reference) decides nothing
+                bad = bad & np.isfinite(b)
             if np.any(bad):
                 idx = tuple(int(i) for i in np.argwhere(bad)[0])
                 self.float_failures.append((label, 'index %s: got %r expected %r' % (
